@@ -302,3 +302,45 @@ PROPS['C17'] = dict(
         O('C17.conditional_values', 'harness.c17_external', 'conditional_values', 120, 600,
           'only active children presented; unknown or inactive parameters raise ValueError (no silent truncation)', env=_SYMFF),
     ])
+
+
+_C07_BOUND = 'pre-state as C01 (study missing/4 states, trial 1 any of 5 states, bystander trial), one RPC, both back ends'
+PROPS['C07'] = dict(
+    level='model_checking',
+    encoded=['VizierServicer.* (all RPCs)', 'NestedDictRAMDataStore.*', 'SQLDataStore.* on real sqlalchemy + sqlite',
+             'metadata_util.merge_study_metadata/merge_trial_metadata'],
+    bounds=_C07_BOUND,
+    outside='file-backed SQLite (identical above sqlalchemy; exercised in C05); pre-states with more than 2 trials; '
+            'histories longer than the delete/re-create sequence',
+    assumptions=['the SQL side runs real sqlalchemy/sqlite outside tracing on the state concretised by solver branching'],
+    obligations=[
+        O('C07.eq_complete', 'harness.c07_equiv', 'eq_complete', 400, 900, 'CompleteTrial: same outcome class, response and stored state on RAM and SQL', _C07_BOUND),
+        O('C07.eq_trial_mutations', 'harness.c07_equiv', 'eq_trial_mutations', 300, 900, 'AddTrialMeasurement/StopTrial/DeleteTrial', _C07_BOUND),
+        O('C07.eq_create_trial', 'harness.c07_equiv', 'eq_create_trial', 120, 600, 'CreateTrial', _C07_BOUND),
+        O('C07.eq_reads', 'harness.c07_equiv', 'eq_reads', 250, 900, 'GetTrial/ListTrials/GetStudy', _C07_BOUND),
+        O('C07.eq_study_ops', 'harness.c07_equiv', 'eq_study_ops', 300, 900, 'SetStudyState/DeleteStudy/ListOptimalTrials/CreateStudy/ListStudies', _C07_BOUND),
+        O('C07.eq_suggest', 'harness.c07_equiv', 'eq_suggest', 150, 600, 'SuggestTrials incl. operation naming', _C07_BOUND),
+        O('C07.eq_earlystop', 'harness.c07_equiv', 'eq_earlystop', 120, 600, 'CheckTrialEarlyStoppingState', _C07_BOUND),
+        O('C07.update_metadata_active', 'harness.c07_equiv', 'update_metadata_active', 500, 1200,
+          'UpdateMetadata on an active study: both back ends = last-writer-wins oracle; an update naming a missing trial '
+          'reports an error and changes nothing on either', '1..2 updates over 3 (ns,key) pairs x {study, trial 1, 2, missing}'),
+        O('C07.update_metadata_other_states', 'harness.c07_equiv', 'update_metadata_other_states', 120, 600,
+          'UpdateMetadata on a missing / inactive / completed study', '1 update'),
+        O('C07.delete_and_recreate', 'harness.c07_equiv', 'delete_and_recreate', 90, 600,
+          'delete-study followed by re-creation of the same name: empty study, operation numbering restarts, same on both',
+          '0..2 finished suggestion operations before the delete'),
+    ] + [
+        O('C07.update_metadata_three_s%d' % k, 'harness.c07_equiv', 'update_metadata_three', None, 1500,
+          'sequences of 3 metadata updates', '3 updates over 5 (ns,key) pairs, slice %d/10' % k, env={'VERIF_SLICE': str(k)})
+        for k in range(10)
+    ])
+
+PROPS['C10']['encoded'] += ['VizierServicer.UpdateMetadata', 'NestedDictRAMDataStore.update_metadata',
+                            'SQLDataStore.update_metadata', 'metadata_util.merge_study_metadata/merge_trial_metadata']
+PROPS['C10']['obligations'] += [
+    O('C10.store_active', 'harness.c07_equiv', 'update_metadata_active', 500, 1200,
+      'stored study/trial metadata after UpdateMetadata = last-writer-wins dict per (namespace, key); every other entry '
+      'untouched; a missing trial => error and nothing changed (RAM and SQL)', '1..2 updates, string or packed-proto values'),
+    O('C10.store_other_states', 'harness.c07_equiv', 'update_metadata_other_states', 120, 600,
+      'UpdateMetadata refused on missing/immutable studies without changing anything'),
+]
